@@ -335,6 +335,41 @@ def ob_inproc_reload_slow_store(wk: int, T: int, d1: int, d2: int, k: int, lat: 
     return not bad
 
 
+@obligation(quick=400, thorough=880,
+            partitions_quick=[f"k == {k} and land_first == {lf}" for k in range(KSLOW) for lf in (True, False)],
+            partitions_thorough=[f"k == {k} and land_first == {lf} and T == {t}" for k in range(KSLOW) for lf in (True, False) for t in (1, 2)],
+            what="in-process stack over a store with I/O latency (one slow update_handler_status, as above), ONE event sent to the idle run before "
+                 "its release, after which the run waits again and nobody sends anything more: once everything has settled (idle_timeout + "
+                 "latency + slack after the event) the run IS released — no live control loop, dropped from the runtime, handler marked idle, "
+                 "status running — whatever the slow write was",
+            bounds={"idle_timeout T": "1..TSLOW", "event instant d1": "0..T (before the release)", "slow write index k": "0..KSLOW-1",
+                    "latency": "1..LATMAX", "lands": "before / after the wait", "workflow kinds": 2})
+def ob_inproc_idle_again_is_released_slow_store(wk: int, T: int, d1: int, k: int, lat: int, land_first: bool) -> bool:
+    """
+    pre: 0 <= wk <= 1 and 1 <= T <= TSLOW and 0 <= d1 <= T
+    pre: 0 <= k < KSLOW and 1 <= lat <= LATMAX
+    post: _
+    """
+    wk = concrete(wk, 0, 1)
+    T = concrete(T, 1, TSLOW)
+    d1 = concrete(d1, 0, TSLOW)
+    k = concrete(k, 0, KSLOW - 1)
+    lat = concrete(lat, 1, LATMAX)
+    land_first = bool(land_first)
+    o = run_stack("inproc", T, [(d1, P1)], _make(wk), _mk_event, early=True, probe_to=0, settle=2 * T + 2 * lat + 3, horizon=0,
+                  slow_write=(k, lat, land_first))
+    bad: List[str] = []
+    if o["errors"] or o["loop_exceptions"]:
+        bad.append(f"errors {o['errors']} {o['loop_exceptions']}")
+    f = o["final"]
+    if f["status"] != "running":
+        bad.append(f"handler status {f['status']} (the run waits for a second event)")
+    elif not (f["live"] == 0 and f["lifecycle"] is True and f["idle_since"] is not None):
+        bad.append(f"idle for good but not released / not marked idle at t={f['at']}: {f}")
+    _debug(f"idle-again wk={wk} T={T} d1={d1} k={k} lat={lat} land_first={land_first} hit={o['slow_hit']}", bad)
+    return not bad
+
+
 @obligation(quick=240, thorough=880,
             partitions_quick=[f"precreate == {p} and wk == {w} and early == {e}" for p in (False, True) for w in (0, 1)
                               for e in (True, False)],
